@@ -146,7 +146,16 @@ func acOne(c acCase, tr *traceWriter) {
 	}
 	f := flamego.NewWithLogger(io.Discard)
 	var out string
+	// an earlier handler of the chain rewrites the query (a rewriting middleware) after having read the old one: what
+	// the accessors return is what the request carries WHEN they are called
+	rewrite := strings.HasPrefix(c.Fn, "Query") && (len(c.Raw)+len(c.Def)+len(c.Fn))%4 == 1
+	realQuery := ""
 	h := func(ctx flamego.Context) {
+		if rewrite {
+			_ = ctx.Query("k")
+			_ = ctx.QueryInt("k")
+			ctx.Request().URL.RawQuery = realQuery
+		}
 		switch c.Fn {
 		case "Query":
 			if c.HasDef {
@@ -224,6 +233,10 @@ func acOne(c acCase, tr *traceWriter) {
 		req.Header.Set("Cookie", "k="+url.QueryEscape(rawv))
 	case !absent:
 		req.URL.RawQuery = "k=" + url.QueryEscape(rawv)
+	}
+	if rewrite {
+		realQuery = req.URL.RawQuery
+		req.URL.RawQuery = "k=41&k=stale&other=1"
 	}
 	panicked := false
 	func() {
